@@ -95,6 +95,82 @@ def oracle(case, out):
     return None
 
 
+class LedgerMonitor:
+    """connection-level oracle: after every API call the congestion controller's
+    ledger equals the in-flight packets still tracked, and the window floor holds"""
+
+    def __init__(self):
+        self.problem = None
+        self.calls = 0
+
+    def after_api(self, sim, ep, name, args, kw, res):
+        if self.problem:
+            return
+        self.calls += 1
+        loss = ep.conn._loss
+        tracked = sum(p.sent_bytes for sp in loss.spaces for p in sp.sent_packets.values() if p.in_flight)
+        if loss.bytes_in_flight != tracked or loss.bytes_in_flight < 0:
+            self.problem = (f"{ep.name}: bytes_in_flight={loss.bytes_in_flight} but tracked in-flight packets total "
+                            f"{tracked} after {name}")
+        elif loss.congestion_window < 2 * ep.conn._max_datagram_size:
+            self.problem = f"{ep.name}: congestion window {loss.congestion_window} below two datagrams after {name}"
+        for sp in loss.spaces:
+            ae = sum(1 for p in sp.sent_packets.values() if p.is_ack_eliciting)
+            if sp.ack_eliciting_in_flight != ae and not self.problem:
+                self.problem = f"{ep.name}: ack_eliciting_in_flight={sp.ack_eliciting_in_flight} but {ae} tracked after {name}"
+
+
+def connection_ledger(ctx, r, n):
+    """handshakes with optional Retry / Version Negotiation, then lossy traffic"""
+    from harness import sim as simmod
+    from aioquic.quic.packet import encode_quic_retry, encode_quic_version_negotiation
+    for k in range(n):
+        seed = r.randrange(1 << 30)
+        mon = LedgerMonitor()
+        variant = ["plain", "retry", "vn"][k % 3]
+        copts = {"congestion_control_algorithm": r.choice(["reno", "cubic"])}
+        if variant == "vn":
+            copts["supported_versions"] = [0x6B3343CF, 1]   # v2 first, server answers VN offering v1
+        s = simmod.Sim(seed, monitors=[mon], client_options=copts)
+        trace = [variant]
+        try:
+            s.connect()
+            c = s.client.conn
+            if variant == "retry":
+                s.pending.clear()
+                pkt = encode_quic_retry(version=c._version, source_cid=bytes(8), destination_cid=c.host_cid,
+                                        original_destination_cid=c._peer_cid.cid, retry_token=bytes(16))
+                s.api(s.client, "receive_datagram", pkt, simmod.SERVER_ADDR, now=s.now)
+                s.transmit(s.client)
+                s.pending.clear()     # the standalone server of the sim does not validate tokens
+            elif variant == "vn":
+                s.pending.clear()
+                pkt = encode_quic_version_negotiation(source_cid=c._peer_cid.cid, destination_cid=c.host_cid,
+                                                      supported_versions=[1])
+                s.api(s.client, "receive_datagram", pkt, simmod.SERVER_ADDR, now=s.now)
+                s.transmit(s.client)
+                s.pending.clear()
+            else:
+                s.fair_phase(max_steps=60, done=lambda: c._handshake_confirmed)
+                for i in range(r.randrange(5, 60)):
+                    if r.random() < 0.3:
+                        ep = r.choice(s.endpoints)
+                        sid = 0 if ep.is_client else 1
+                        s.api(ep, "send_stream_data", sid, bytes(r.randrange(1, 4000)), end_stream=False)
+                        s.transmit(ep)
+                    else:
+                        s.adversarial_step(p_drop=0.3)
+            for _ in range(6):
+                s.fire_timer(s.client)
+        finally:
+            s.close_taps()
+        ctx.count(("conn-ledger", seed, variant), mon.calls > 10)
+        if mon.problem:
+            ctx.witness(mon.problem, {"scenario": variant, "seed": seed, "trace": s.log[-30:]},
+                        {"oracle": "connection-ledger", "scenario": variant})
+    ctx.cov["traces_validated_against_impl"] += n
+
+
 def nontrivial(case, out):
     return any(":L" in o for o in out) and any(":A" in o for o in out)
 
@@ -126,10 +202,12 @@ def main(tier):
         ctx.sample({algo: cases[0][:7]})
         cases = [gen_case(r, algo, r.choice([10, 40]), wellformed=False) for _ in range(n // 3)]
         core.run_cases(ctx, f"recovery-{algo}-malformed", cases, RecoveryImpl, None, nontrivial)
+    connection_ledger(ctx, r, 24 if not thorough else 600)
     ctx.cov["rule"] = (
         "random interleavings of send / ack(arbitrary range sets incl. never-sent and already-acked numbers) / "
         "loss-detection timeout / space discard at arbitrary times for Reno and CUBIC (well-formed: fresh packet "
         "numbers; malformed: reused numbers, bad space index — correspondence only). Non-trivial = at least one "
-        "packet reported ACKED and one LOST; distinct by op-sequence hash."
+        "packet reported ACKED and one LOST; distinct by op-sequence hash. Plus real client/server connections (plain lossy "
+        "traffic, client receiving a Retry, client receiving Version Negotiation) with the ledger oracle after every API call."
     )
     return ctx.finish()
